@@ -13,7 +13,14 @@
 //       cancel_us: -1 never; -2 cancel before any job is added; n>=0: n us after every job reported processStarted
 //       base: "environ" (pass nullptr) or a list field of raw "K=V" entries
 //       job = <inherit><control><interruptible>:<reqenv>:<argv>      reqenv = khex=vhex;... or "."   argv = list field
-//       -> J<i> cb=<n> status=<name> exit=<raw> pid=<pid> started=<n> finished=<n> spawned=<0|1> len=<n> hash=<fnv1a64> out=<hex|~> err=<hex>  (joined by " | ")
+//       -> J<i> cb=<n> status=<name> exit=<raw> pid=<pid> started=<n> finished=<n> spawned=<0|1> len=<n> hash=<fnv1a64> out=<hex|~> err=<hex> mark=<-|0|1> alive=<0|1>  (joined by " | ")
+//   pstorm <lanes|serial> <interval_us> <job>...
+//       like `proc <lanes> -1 environ ...` (serial: createSerialQueue) but from processStarted until the completion
+//       callback of a job a side thread sends SIGUSR1 (no-op handler installed WITHOUT SA_RESTART) to the thread that
+//       executes the job, every <interval_us>: a client's ordinary signal handler must not change any child's fate.
+//       job may carry a 4th field :<markhex> = path of a file the child creates just before it exits; the answer then has
+//       mark=<1|0> (did the file exist when the completion callback ran) and always alive=<0|1> (does the child's pid
+//       still exist as a child of the driver, running or zombie, after the queue was destroyed; /proc/<pid>/stat ppid == getpid()).
 //   probe_status
 //       -> PROBE e:<code>:<raw>:<status> ... s:<sig>:<raw>:<status> ...     (real children: exit N / kill -SIG $$)
 #include "common.h"
@@ -32,6 +39,8 @@
 #include <algorithm>
 #include <unistd.h>
 #include <signal.h>
+#include <pthread.h>
+#include <errno.h>
 
 using namespace llbuild;
 using namespace llbuild::basic;
@@ -247,6 +256,9 @@ struct ProcJob {
   std::atomic<int> cb{0}, started{0}, finished{0}, spawned{0};
   int status = -99, exitCode = 0; long pid = -1;
   std::string out, err;
+  // signal storm / ordering observation
+  std::string markFile; int markSeen = -1;
+  pthread_t thr; std::atomic<bool> thrValid{false}, done{false};
 };
 
 struct ProcScenario : public ExecutionQueueDelegate {
@@ -259,6 +271,7 @@ struct ProcScenario : public ExecutionQueueDelegate {
   void queueJobFinished(JobDescriptor*) override {}
   void processStarted(ProcessContext* ctx, ProcessHandle, llbuild_pid_t pid) override {
     ProcJob& j = of(ctx); j.started++;
+    j.thr = pthread_self(); j.thrValid = true;
     std::lock_guard<std::mutex> g(mu);
     j.pid = (long)pid; if (pid != (llbuild_pid_t)-1) j.spawned = 1;
     nStarted++; cv.notify_all();
@@ -279,8 +292,24 @@ static uint64_t fnv1a(const std::string& s) {
 }
 
 // runs the jobs (one process launch each) on a fresh queue; returns when every completion callback has fired
-static void runProcs(ProcScenario& sc, int lanes, int cancelUs, const char* const* base) {
-  ExecutionQueue* q = createLaneBasedExecutionQueue(sc, lanes, SchedulerAlgorithm::FIFO, getDefaultQualityOfService(), base);
+static void onStormSignal(int) {}
+
+static void runProcs(ProcScenario& sc, int lanes, int cancelUs, const char* const* base, bool serial = false, int stormUs = -1) {
+  ExecutionQueue* q = serial ? createSerialQueue(sc, base).release()
+                             : createLaneBasedExecutionQueue(sc, lanes, SchedulerAlgorithm::FIFO, getDefaultQualityOfService(), base);
+  std::atomic<bool> stormStop{false};
+  std::thread storm;
+  if (stormUs >= 0) {
+    struct sigaction sa; memset(&sa, 0, sizeof(sa)); sa.sa_handler = onStormSignal; sigemptyset(&sa.sa_mask); sa.sa_flags = 0;   // no SA_RESTART
+    sigaction(SIGUSR1, &sa, nullptr);
+    storm = std::thread([&sc, &stormStop, stormUs]() {
+      // the executing threads (lanes / serial worker) outlive this thread: it is joined before the queue is deleted
+      while (!stormStop) {
+        for (auto& j : sc.jobs) if (j->thrValid && !j->done) pthread_kill(j->thr, SIGUSR1);
+        usleep_for(stormUs);
+      }
+    });
+  }
   if (cancelUs == -2) q->cancelAllJobs();
   size_t n = sc.jobs.size();
   for (size_t i = 0; i < n; i++) {
@@ -294,6 +323,8 @@ static void runProcs(ProcScenario& sc, int lanes, int cancelUs, const char* cons
       attr.inheritEnvironment = pj->inherit;
       attr.controlEnabled = pj->control;
       q->executeProcess(ctx, cmd, env, attr, {[pj, s](ProcessResult r) {
+        pj->done = true;
+        if (!pj->markFile.empty()) pj->markSeen = access(pj->markFile.c_str(), F_OK) == 0 ? 1 : 0;
         std::lock_guard<std::mutex> g(s->mu);
         pj->status = (int)r.status; pj->exitCode = r.exitCode;
         if (r.pid != (llbuild_pid_t)-1) pj->pid = (long)r.pid;
@@ -310,7 +341,23 @@ static void runProcs(ProcScenario& sc, int lanes, int cancelUs, const char* cons
   }
   { std::unique_lock<std::mutex> lk(sc.mu);
     sc.cv.wait_for(lk, std::chrono::seconds(120), [&] { return sc.nDone >= (int)n; }); }
+  if (storm.joinable()) { stormStop = true; storm.join(); }
   delete q;
+}
+
+// 1 = the pid still exists AS A CHILD OF THIS PROCESS (running or zombie): read /proc/<pid>/stat and require
+// ppid == getpid(), so a pid recycled by some other process on the machine is never mistaken for our child.
+static int pidAlive(long pid) {
+  if (pid <= 1) return 0;
+  char path[64]; snprintf(path, sizeof(path), "/proc/%ld/stat", pid);
+  FILE* f = fopen(path, "r");
+  if (!f) return 0;
+  char buf[1024]; size_t n = fread(buf, 1, sizeof(buf) - 1, f); fclose(f); buf[n] = 0;
+  const char* rp = strrchr(buf, ')');            // the command name may contain spaces and parentheses
+  if (!rp) return 0;
+  char state = 0; long ppid = -1;
+  if (sscanf(rp + 1, " %c %ld", &state, &ppid) != 2) return 0;
+  return ppid == (long)getpid() ? 1 : 0;
 }
 
 static std::string showProc(size_t i, ProcJob& j) {
@@ -318,11 +365,21 @@ static std::string showProc(size_t i, ProcJob& j) {
     " exit=" + std::to_string(j.exitCode) + " pid=" + std::to_string(j.pid) + " started=" + std::to_string(j.started.load()) +
     " finished=" + std::to_string(j.finished.load()) + " spawned=" + std::to_string(j.spawned.load()) +
     " len=" + std::to_string(j.out.size()) + " hash=" + std::to_string((unsigned long long)fnv1a(j.out)) +
-    " out=" + (j.out.size() <= 4096 ? hex(j.out) : std::string("~")) + " err=" + hex(j.err);
+    " out=" + (j.out.size() <= 4096 ? hex(j.out) : std::string("~")) + " err=" + hex(j.err) +
+    " mark=" + (j.markSeen < 0 ? std::string("-") : std::to_string(j.markSeen)) + " alive=" + std::to_string(pidAlive(j.pid));
   return o;
 }
 
-static std::string runProcCmd(const SV& a) {
+static std::string runProcCmd(const SV& a0) {
+  SV a = a0;
+  bool serial = false; int stormUs = -1;
+  if (a[0] == "pstorm") {           // pstorm <lanes|serial> <interval_us> <job>...  ->  proc <lanes> -1 environ <job>...
+    if (a.size() < 4) return "ERR args";
+    serial = a[1] == "serial"; stormUs = atoi(a[2].c_str());
+    SV b{"proc", serial ? "1" : a[1], "-1", "environ"};
+    b.insert(b.end(), a.begin() + 3, a.end());
+    a = b;
+  }
   if (a.size() < 5) return "ERR args";
   int lanes = atoi(a[1].c_str()), cancelUs = atoi(a[2].c_str());
   SV baseStore; std::vector<const char*> basePtrs; const char* const* base = nullptr;
@@ -330,16 +387,17 @@ static std::string runProcCmd(const SV& a) {
   ProcScenario sc;
   for (size_t i = 4; i < a.size(); i++) {
     SV f = split(a[i], ':');
-    if (f.size() != 3 || f[0].size() != 3) return "ERR job " + a[i];
+    if ((f.size() != 3 && f.size() != 4) || f[0].size() != 3) return "ERR job " + a[i];
     std::unique_ptr<ProcJob> j(new ProcJob);
     j->inherit = f[0][0] == '1'; j->control = f[0][1] == '1'; j->interruptible = f[0][2] == '1';
     if (f[1] != ".") for (auto& kv : split(f[1], ';')) { SV p = split(kv, '='); if (p.size() != 2) return "ERR env"; j->env.push_back({unhex(p[0]), unhex(p[1])}); }
     j->argv = unlist(f[2]);
+    if (f.size() == 4) j->markFile = unhex(f[3]);
     sc.descs.emplace_back(new Desc((int)sc.jobs.size(), ""));
     sc.jobs.push_back(std::move(j));
   }
   auto t0 = std::chrono::steady_clock::now();
-  runProcs(sc, lanes, cancelUs, base);
+  runProcs(sc, lanes, cancelUs, base, serial, stormUs);
   long ms = std::chrono::duration_cast<std::chrono::milliseconds>(std::chrono::steady_clock::now() - t0).count();
   std::string out;
   for (size_t i = 0; i < sc.jobs.size(); i++) { if (i) out += " | "; out += showProc(i, *sc.jobs[i]); }
@@ -379,7 +437,7 @@ int main() {
     std::string ans;
     if (a.empty() || a[0].empty()) ans = "";
     else if (a[0] == "queue") ans = runQueue(a);
-    else if (a[0] == "proc") ans = runProcCmd(a);
+    else if (a[0] == "proc" || a[0] == "pstorm") ans = runProcCmd(a);
     else if (a[0] == "probe_status") ans = probeStatus();
     else ans = "ERR unknown " + a[0];
     fputs(ans.c_str(), stdout); fputc('\n', stdout); fflush(stdout);
